@@ -444,9 +444,29 @@ def string_front_end(ctx, prog):
         r0, n0 = fpath(a0)
         r1, n1 = fpath(a1)
         # operands are the Ok payloads of the two parses, lhs first
+        tagged = []   # (side, source parameter) found in `map_err` closures
+
         def src(r):
+            # `parse(x)` itself, or `parse(x).map_err(|err| ParseErrorEither(side, err))` behind `?`
+            r = strip(r)
+            if r[0] == "call" and r[1].endswith("Try>::branch") and r[2]:
+                r = strip(r[2][0])
+            if r[0] == "call" and r[1].endswith("::map_err") and len(r[2]) == 2:
+                cl = strip(r[2][1])
+                inner = strip(r[2][0])
+                if cl[0] == "agg" and cl[1].startswith("Closure:") and not cl[2]:
+                    c = prog.get(cl[1][len("Closure:"):])
+                    if c is not None and not list(c.calls()):
+                        ctx.visit(c)
+                        ce = strip(Sym(c).local(0))
+                        if ce[0] == "agg" and "compare_easy::ParseErrorEither" in ce[1] and len(ce[2]) == 2 and strip(ce[2][1])[0] == "param" and strip(ce[2][1])[1] == 2 \
+                                and strip(ce[2][0])[0] == "agg":
+                            who = strip(inner[2][0])[2] if inner[0] == "call" and inner[1].endswith("str>::parse") and strip(inner[2][0])[0] == "param" else None
+                            tagged.append((strip(ce[2][0])[1].split("::")[-1], who, ("<Err>", "0")))
+                r = inner
             return strip(r[2][0])[2] if r[0] == "call" and r[1].endswith("str>::parse") and strip(r[2][0])[0] == "param" else None
-        ok = ok and n0 == ("<Ok>", "0") and n1 == ("<Ok>", "0") and src(r0) == "lhs" and src(r1) == "rhs"
+        pay = (("<Ok>", "0"), ("<Continue>", "0"))
+        ok = ok and n0 in pay and n1 in pay and src(r0) == "lhs" and src(r1) == "rhs"
         why = "compare(parse(%s).Ok, parse(%s).Ok), both LongFuzzyHash" % (src(r0), src(r1))
         # error sides
         sides = []
@@ -456,6 +476,7 @@ def string_front_end(ctx, prog):
                 side = e[2][0][1].split("::")[-1] if e[2][0][0] == "agg" else "?"
                 r, n = fpath(e[2][1])
                 sides.append((side, src(r), n))
+        sides += sorted(set(tagged))
         ok = ok and sorted(sides) == [("Left", "lhs", ("<Err>", "0")), ("Right", "rhs", ("<Err>", "0"))]
         why += "; error sides %s" % sorted((a, b) for a, b, c in sides)
         # every Ok payload is the result of that one comparison (no constant / pre-filtered answer)
@@ -479,9 +500,18 @@ def scan_guards_tight(ctx, prog):
     sy = Sym(f)
     n = 0
     for i, j, s in f.stmts():
-        if s["s"] != "assign" or s["rv"]["r"] != "bin" or s["rv"]["op"] not in ("Sub", "SubWithOverflow", "SubUnchecked"):
+        if s["s"] != "assign":
             continue
-        a, b = sy.operand(s["rv"]["a"]), sy.operand(s["rv"]["b"])
+        if s["rv"]["r"] == "bin" and s["rv"]["op"] in ("Sub", "SubWithOverflow", "SubUnchecked"):
+            a, b = sy.operand(s["rv"]["a"]), sy.operand(s["rv"]["b"])
+        elif s["rv"]["r"] == "use" and s["rv"]["a"].get("k") in ("copy", "move") and any(isinstance(x, dict) and "dc" in x for x in s["rv"]["a"]["pl"]["p"]):
+            # `match a.checked_sub(K) { Some(next) => .. }`: the payload is `a - K` (Sym), present exactly when a >= K
+            e = strip(sy.operand(s["rv"]["a"]))
+            if not (e[0] == "bin" and e[1] == "Sub"):
+                continue
+            a, b = e[2], e[3]
+        else:
+            continue
         ca, cb = canon(strip(a)), canon(strip(b))
         if not (strip(b)[0] == "const" and (strip(b)[2] or "").endswith("MIN_LCS_FOR_COMPARISON")) or strip(a)[0] == "const":
             continue
